@@ -254,6 +254,7 @@ def tStep (cur : V) (op : String) (arg : V) : Option V :=
     match cur with
     | .dict _ es => if hashable arg then (es.find? (fun p => veq p.1 arg)).map (·.2) else none
     | .list xs | .tuple xs => (asInt arg).bind (seqIndex xs)
+    | .str s => (asInt arg).bind (seqIndex (s.toList.map (fun c => V.str (String.singleton c))))
     | _ => none
   | "+" => match cur, arg with
     | .list a, .list b => some (.list (a ++ b))
